@@ -30,6 +30,9 @@ type c04Case struct {
 	V5  bool    `json:"v5"`
 	RM  int     `json:"rm"`
 	Evs []c04Ev `json:"evs"`
+	// Pipe: all packets are written back-to-back to a connection whose client reads slowly (16 bytes of pipe, 2 ms per
+	// read): the broker's writer lags behind its reader; one observed step with all responses in wire order
+	Pipe bool `json:"pipe,omitempty"`
 }
 
 type c04Step struct {
@@ -75,6 +78,20 @@ func (p *c04Prop) Gen(r *Rng, i int, tier string) interface{} {
 			}
 		}
 		c.Evs = append(c.Evs, e)
+	}
+	if i%10 == 9 {
+		// the same kind of sequence, pipelined into a connection whose client reads slowly; every topic is authorised and
+		// identifier 0 is left out (its packet cannot be encoded without patching)
+		c.Pipe = true
+		// no termination in the middle of a pipeline (what the writer still holds is cut off by the close: nothing to
+		// compare): the Receive Maximum is never reached
+		c.RM = 100
+		for k := range c.Evs {
+			c.Evs[k].Auth = true
+			if c.Evs[k].K == "pub" && c.Evs[k].QoS > 0 && c.Evs[k].ID == 0 {
+				c.Evs[k].ID = 1
+			}
+		}
 	}
 	return c
 }
@@ -128,6 +145,80 @@ func (p *c04Prop) Run(ci interface{}) interface{} {
 	pc := b.Dial()
 	if _, err := pc.Connect(ConnectOpts{ID: "pub", Ver: ver, Clean: true}); err != nil {
 		obs.Err = "pub: " + err.Error()
+		return obs
+	}
+	if c.Pipe {
+		pc = b.DialCap(16)
+		if _, err := pc.Connect(ConnectOpts{ID: "pubpipe", Ver: ver, Clean: true}); err != nil {
+			obs.Err = "pub: " + err.Error()
+			return obs
+		}
+		pc.conn.(*bufConn).SetReadPause(2 * time.Millisecond)
+		var all []byte
+		for k, e := range c.Evs {
+			var pkt mqttp.IFace
+			if e.K == "rel" {
+				pkt = mkAck(ver, mqttp.PUBREL, uint16(e.ID))
+			} else {
+				m := mqttp.NewPublish(ver)
+				_ = m.Set("ok/t", []byte{byte(k + 1)}, mqttp.QosType(e.QoS), false, e.Dup)
+				if e.QoS > 0 {
+					m.SetPacketID(mqttp.IDType(e.ID))
+				}
+				pkt = m
+			}
+			raw, _ := mqttp.Encode(pkt)
+			all = append(all, raw...)
+		}
+		raw, _ := mqttp.Encode(mqttp.NewPingReq(ver))
+		all = append(all, raw...)
+		_ = pc.SendRaw(all)
+		st := c04Step{Resp: [][3]int{}, Fwd: []int{}}
+		for {
+			rp, err := pc.Recv(10 * time.Second)
+			if err != nil {
+				if err == io.EOF {
+					st.Closed = true
+				} else {
+					obs.Err = fmt.Sprintf("pipeline: %v", err)
+				}
+				break
+			}
+			if rp.Type() == mqttp.PINGRESP {
+				break
+			}
+			switch a := rp.(type) {
+			case *mqttp.Ack:
+				id, _ := a.ID()
+				st.Resp = append(st.Resp, [3]int{int(a.Type()), int(id), int(a.Reason())})
+			case *mqttp.Disconnect:
+				st.Resp = append(st.Resp, [3]int{int(a.Type()), 0, int(a.ReasonCode())})
+			default:
+				st.Resp = append(st.Resp, [3]int{int(rp.Type()), 0, 0})
+			}
+		}
+		_ = h.SendL(mkPublish(mqttp.ProtocolV311, "ok/sentinel", []byte{0, 0}, 0, false, 0))
+		_ = h.SendL(mkPublish(mqttp.ProtocolV311, "ok/sentinel", []byte{0, 0}, 1, false, 1))
+		if !w.WaitFor(5*time.Second, func() bool {
+			n := 0
+			for _, m := range w.Pubs {
+				if m.Topic() == "ok/sentinel" {
+					n++
+				}
+			}
+			return n >= 2
+		}) {
+			obs.Err = "pipeline: sentinels did not arrive"
+		}
+		w.mu.Lock()
+		for _, m := range w.Pubs {
+			if m.Topic() != "ok/sentinel" && len(m.Payload()) == 1 {
+				st.Fwd = append(st.Fwd, int(m.Payload()[0]))
+			}
+		}
+		w.mu.Unlock()
+		sort.Ints(st.Fwd)
+		obs.Steps = append(obs.Steps, st)
 		return obs
 	}
 	seenW := 0
@@ -241,11 +332,14 @@ func (p *c04Prop) Coq(ci interface{}, oi interface{}) string {
 		}
 		steps[i] = fmt.Sprintf("(mkStep %s %s %s)", cList(rs), cNs(fw), cBool(s.Closed))
 	}
-	return fmt.Sprintf("(mkCase %s %s %s %s %s)", cBool(c.V5), cZ(int64(c.RM)), cList(evs), cList(steps), cBool(o.Err == ""))
+	return fmt.Sprintf("(mkCase %s %s %s %s %s %s)", cBool(c.V5), cZ(int64(c.RM)), cList(evs), cList(steps), cBool(o.Err == ""), cBool(c.Pipe))
 }
 
 func (p *c04Prop) Class(ci interface{}, oi interface{}) (string, bool) {
 	c := ci.(*c04Case)
+	if c.Pipe {
+		return "pipelined", true
+	}
 	o := oi.(*c04Obs)
 	dups, rels := 0, 0
 	seen := map[int]bool{}
